@@ -149,6 +149,27 @@ def judge(ctx, g, doc, opts, text, out, fails, case):
     if got != want:
         fails.append(Failure("oracle", None, "relation paths differ: missing %s / unexpected %s" % (
             list((want - got).elements())[:2], list((got - want).elements())[:2]), case))
+    # independently of unified(): whatever the document itself states is drawn -- every element of every container has a node
+    # of its kind in its cluster, every two-ended relation has a path (statements of one identifier and kind share theirs)
+    if uni is not doc:
+        src_conts = [(None, doc)] + [(cluster_by_url.get(dot_parsed(b.identifier.uri)), b) for b in (doc.bundles if doc.is_document() else [])]
+        for cname, cont in src_conts:
+            for r in cont.records:
+                if isinstance(r, ProvElement):
+                    url = dot_parsed(r.identifier.uri)
+                    if not any(n["url"] == url and n["shape"] == SHAPE[r.get_type().localpart] and n["name"].startswith("n")
+                               and (cname is None or n["name"] in graph.get("members", {}).get(cname, [])) for n in nodes):
+                        fails.append(Failure("oracle", None, "element %s (%s) stated in %s has no node there" % (
+                            r.identifier, r.get_type().localpart, cname or "the top level"), case))
+                        break
+                elif isinstance(r, ProvRelation):
+                    refs = [(a, v) for (a, v) in r.formal_attributes if a in PROV_ATTRIBUTE_QNAMES]
+                    q0, q1 = refs[0][1], refs[1][1]
+                    if q0 is not None and q1 is not None:
+                        k = (DOT_PROV_STYLE[r.get_type()]["label"], dot_parsed(q0.uri), dot_parsed(q1.uri))
+                        if got[k] < 1:
+                            fails.append(Failure("oracle", None, "relation %s(%s, %s) stated in the document has no path" % k, case))
+                            break
     # every referenced name has a node
     urls = {n["url"] for n in nodes if n["url"]}
     for (lbl, u0, u1) in want:
@@ -173,6 +194,8 @@ def run(ctx):
         w = World()
         b = DocBuilder(g, w, malformed=0.0, repeat_id=0.2, plain_binary=0.3)
         d, scopes = b.random_document(n_records=g.rng.randint(1, 7))
+        if g.chance(0.2) and b.cross_kind_cluster(g.choice(scopes)):
+            ctx.count("one-identifier-two-merged-kinds")
         # identifiers / namespaces with hostile characters
         if g.chance(0.5):
             c = g.choice(scopes)
